@@ -28,4 +28,5 @@ print("\n### Seeded changes (seeded/*/meta.json)\n")
 print("| id | breaks | caught by | history |\n|---|---|---|---|")
 for p in sorted(glob.glob(os.path.join(V, "seeded", "*", "meta.json"))):
     m = json.load(open(p)); d = m.get("detected_by") or {}
-    print(f"| {m['id']} | {m['breaks_property']} | {d.get('check','?')}: {d.get('how','')[:150]} | {d.get('history','')[:200]} |")
+    hist = d.get('history','')[:200] + (" — OBSOLETE: " + m['obsolete'][:160] if m.get('obsolete') else " — re-made after later fix: commits" if m.get('rebased') else "")
+    print(f"| {m['id']} | {m['breaks_property']} | {d.get('check','?')}: {d.get('how','')[:150]} | {hist} |")
